@@ -1,8 +1,10 @@
 // verif:dir zz_verif/send
 //
 // Harness group send: the real sending stack
-//   ResponseAssembler -> PeerMessageManager/PeerManager -> MessageQueue ->
-//   notifications publisher -> Allocator
+//
+//	ResponseAssembler -> PeerMessageManager/PeerManager -> MessageQueue ->
+//	notifications publisher -> Allocator
+//
 // with a stub MessageNetwork/MessageSender whose every verdict is a solver
 // variable, block and extension sizes as solver variables, and a recording
 // subscriber per request.
@@ -75,41 +77,52 @@ func runTransactions(s *kit.Stack, p peer.ID, subs []*kit.Sub, g *ghost) {
 			kinds[i] = alphabet[verifrt.Choose("op", len(alphabet))]
 		}
 		desc := fmt.Sprintf("tx%d req%d:", t, r)
-		_ = streams[r].Transaction(func(rb responseassembler.ResponseBuilder) error {
-			for _, kd := range kinds {
-				switch kd {
-				case opBlock:
-					data := verifrt.Bytes("blocklen", maxLen)
-					rb.SendResponse(kit.Link(nextLink), data)
-					nextLink++
-					desc += " block"
-				case opMissing:
-					rb.SendResponse(kit.Link(nextLink), nil)
-					nextLink++
-					desc += " missing"
-				case opDupBlock:
-					if nextLink == 0 {
-						continue
-					}
-					data := verifrt.Bytes("duplen", maxLen)
-					rb.SendResponse(kit.Link(nextLink-1), data)
-					desc += " dup"
-				case opExtData:
-					data := verifrt.Bytes("extlen", 255)
-					rb.SendExtensionData(graphsync.ExtensionData{Name: "x", Data: basicnode.NewBytes(data)})
-					g.extBytes = true
-					desc += " ext"
-				case opExtNil:
-					rb.SendExtensionData(graphsync.ExtensionData{Name: "y"})
-					desc += " extnil"
-				case opFinish:
-					rb.FinishRequest()
-					finished[r] = true
-					desc += " finish"
-					return nil
-				}
+		run := func(f func()) { f() }
+		if verifrt.Param("OTHERPEER", 0) == 1 {
+			// the transaction may have to wait for memory held by another peer,
+			// possibly for ever: it is issued from a goroutine of its own
+			run = func(f func()) {
+				go f()
+				verifrt.Quiesce()
 			}
-			return nil
+		}
+		run(func() {
+			_ = streams[r].Transaction(func(rb responseassembler.ResponseBuilder) error {
+				for _, kd := range kinds {
+					switch kd {
+					case opBlock:
+						data := verifrt.Bytes("blocklen", maxLen)
+						rb.SendResponse(kit.Link(nextLink), data)
+						nextLink++
+						desc += " block"
+					case opMissing:
+						rb.SendResponse(kit.Link(nextLink), nil)
+						nextLink++
+						desc += " missing"
+					case opDupBlock:
+						if nextLink == 0 {
+							continue
+						}
+						data := verifrt.Bytes("duplen", maxLen)
+						rb.SendResponse(kit.Link(nextLink-1), data)
+						desc += " dup"
+					case opExtData:
+						data := verifrt.Bytes("extlen", 255)
+						rb.SendExtensionData(graphsync.ExtensionData{Name: "x", Data: basicnode.NewBytes(data)})
+						g.extBytes = true
+						desc += " ext"
+					case opExtNil:
+						rb.SendExtensionData(graphsync.ExtensionData{Name: "y"})
+						desc += " extnil"
+					case opFinish:
+						rb.FinishRequest()
+						finished[r] = true
+						desc += " finish"
+						return nil
+					}
+				}
+				return nil
+			})
 		})
 		verifrt.Event(desc)
 		if verifrt.Param("NODRAIN", 0) == 0 && verifrt.Choose("drain", 2) == 1 {
@@ -140,7 +153,23 @@ func VerifSend_Accounting() {
 	perPeer := verifrt.U64("peer-limit")
 	verifrt.Assume(perPeer >= 2*maxLen+64 && perPeer < 1<<30)
 	retries := verifrt.Param("RETRIES", 1)
+	// OTHERPEER: another peer holds most of the shared memory for the whole
+	// run, so that it is the total limit (a solver variable) that makes this
+	// peer's reservations wait - possibly for ever
+	const hold = uint64(1) << 22
+	other := verifrt.Param("OTHERPEER", 0) == 1
+	if other {
+		total = verifrt.U64("total-limit")
+		verifrt.Assume(total > hold && total <= hold+3*maxLen+64)
+		perPeer = 1 << 30
+	}
 	s := kit.NewStack(total, perPeer, retries)
+	pB := peer.ID("peerB")
+	if other {
+		err := <-s.Alloc.AllocateBlockMemory(pB, hold)
+		verifrt.Assert(err == nil, "harness: the other peer's reservation was refused")
+		verifrt.Cover("other-peer-holds-memory")
+	}
 	s.Net.MaxFaults = verifrt.Param("FAULTS", 2)
 	p := peer.ID("peerA")
 	nreq := verifrt.Param("REQS", 2)
@@ -164,9 +193,14 @@ func VerifSend_Accounting() {
 		s.PMM.Disconnected(p)
 		verifrt.Quiesce()
 	}
+	if other {
+		_ = s.Alloc.ReleasePeerMemory(pB)
+		drain()
+	}
 	held := s.Alloc.AllocatedForPeer(p)
 	st := s.Alloc.Stats()
 	verifrt.Eventf("sent=%d sendcalls=%d exited=%d", len(s.Net.Sent), s.Net.SendCalls, len(s.Exited))
+	verifrt.Assert(!s.H.Dropped, "C16 data handed to the peer's queue was dropped: its build callback never ran, so nobody is told sent or failed")
 	verifrt.Assert(!s.OverRelease, "C15 more bytes were released for the peer than were accounted to it (a reservation was returned twice)")
 	verifrt.AssertKF(held == 0, "C15 memory still accounted to the peer after its queue went idle", "C15-F1", g.extBytes)
 	verifrt.AssertKF(st.TotalAllocatedAllPeers == 0, "C15 total allocated memory non-zero after every queue went idle", "C15-F1", g.extBytes)
@@ -229,7 +263,9 @@ func VerifSend_Accounting() {
 	// C17(2): messages leave in the order they were queued: link indices were
 	// handed out in queueing order (across all requests), so over the sequence
 	// of sent messages they never decrease
-	{
+	// (with OTHERPEER transactions wait for memory concurrently and are queued
+	// in the order their reservations are granted, not in the order issued)
+	if !other {
 		last := -1
 		for _, m := range s.Net.Sent {
 			lo, hi := 1<<30, -1
